@@ -27,6 +27,7 @@ CONSTANTS
     HFSel,       \* kh : host-field menu indices in use
     MarkSel,     \* kh : marker indices in use
     KeySel,      \* kh : key indices in use
+    QSel,        \* kh : lookup triples (indices into QMenu) in use
     MaxTok,      \* tok: longest option string
     MaxEntries,  \* ak : entries per file
     MaxOpts,     \* ak : options per entry
@@ -34,6 +35,7 @@ CONSTANTS
     SampleMod,   \* only cases with Hash % SampleMod = SampleRem are kept
     SampleRem,
     NegIgnored,  \* sensitivity: a negated match does not exclude (WRONG rule)
+    NoHostLiteralCidr, \* sensitivity: an IP-literal host is not an address for CIDR patterns (WRONG)
     FallbackAlways, \* sensitivity: plain-name lookup merged in always (WRONG)
     DropPortRevoked,\* sensitivity: the fallback forgets [host]:port revocations (pre-repair rule)
     AnyFromSuffices,\* sensitivity: one matching from= is enough (WRONG)
@@ -92,17 +94,24 @@ Pow2(n) == IF n = 0 THEN 1 ELSE IF n = 1 THEN 2 ELSE IF n = 2 THEN 4 ELSE 8
 Canon(net, len) == net % Pow2(3 - len) = 0
 InNet(ip, net, len) == ip \div Pow2(3 - len) = net \div Pow2(3 - len)
 AddrStr(n) == <<"1", "0", ".", "0", ".", "0", ".", Digit(n)>>
+(* and the same eight addresses in IPv6, fd00::0 .. fd00::7, prefix /125+len.  An  *)
+(* address is a number: -1 none, 0..7 IPv4, 10..17 IPv6                            *)
+V6Str(n) == <<"f", "d", "0", "0", ":", ":", Digit(n)>>
+AddrStrG(x) == IF x >= 10 THEN V6Str(x - 10) ELSE AddrStr(x)
 Bracket(s, port) == <<"[">> \o s \o <<"]", ":", Digit(port)>>
 
 (* a pattern-list item.  k = "w": wildcard/literal text t;  k = "c": address *)
 (* net/29+len (bare: written without the /32 suffix)                        *)
-W(neg, t)            == [neg |-> neg, k |-> "w", t |-> t, net |-> 0, len |-> 0, bare |-> FALSE]
-C(neg, net, len)     == [neg |-> neg, k |-> "c", t |-> <<>>, net |-> net, len |-> len, bare |-> FALSE]
-B(neg, net)          == [neg |-> neg, k |-> "c", t |-> <<>>, net |-> net, len |-> 3, bare |-> TRUE]
+W(neg, t)            == [neg |-> neg, k |-> "w", t |-> t, net |-> 0, len |-> 0, bare |-> FALSE, fam |-> 4]
+C(neg, net, len)     == [neg |-> neg, k |-> "c", t |-> <<>>, net |-> net, len |-> len, bare |-> FALSE, fam |-> 4]
+B(neg, net)          == [neg |-> neg, k |-> "c", t |-> <<>>, net |-> net, len |-> 3, bare |-> TRUE, fam |-> 4]
+C6(neg, net, len)    == [C(neg, net, len) EXCEPT !.fam = 6]
+B6(neg, net)         == [B(neg, net) EXCEPT !.fam = 6]
 
 ItemText(it) ==            \* without the '!'
     IF it.k = "w" THEN it.t
-    ELSE IF it.bare THEN AddrStr(it.net)
+    ELSE IF it.bare THEN (IF it.fam = 6 THEN V6Str(it.net) ELSE AddrStr(it.net))
+    ELSE IF it.fam = 6 THEN V6Str(it.net) \o <<"/", "1", "2", Digit(5 + it.len)>>
     ELSE AddrStr(it.net) \o <<"/">> \o
          (IF it.len = 0 THEN <<"2", "9">> ELSE <<"3", Digit(it.len - 1)>>)
 ItemChars(it) == (IF it.neg THEN <<"!">> ELSE <<>>) \o ItemText(it)
@@ -112,7 +121,9 @@ ListChars(pl) == Join([i \in 1..Len(pl) |-> ItemChars(pl[i])], <<",">>)
 (* the host string or the address string                                             *)
 ItemMatch(it, hs, as, ip) ==
     IF it.k = "c"
-    THEN Canon(it.net, it.len) /\ ip >= 0 /\ InNet(ip, it.net, it.len)
+    THEN /\ Canon(it.net, it.len) /\ ip >= 0
+         /\ IF it.fam = 6 THEN ip >= 10 /\ InNet(ip - 10, it.net, it.len)
+            ELSE ip < 10 /\ InNet(ip, it.net, it.len)
     ELSE (hs # <<>> /\ Wild(it.t, hs)) \/ (as # <<>> /\ Wild(it.t, as))
 
 PosMatch(pl, hs, as, ip) == \E i \in 1..Len(pl) : ~pl[i].neg /\ ItemMatch(pl[i], hs, as, ip)
@@ -154,15 +165,43 @@ HFMenu == <<
     H(AddrStr(4), 1),                                     \* 17  |1|s1|HMAC(10.0.0.4)
     L(<<W(FALSE, <<"[", "a", "]", ":", "?">>), W(TRUE, Bracket(a, 3))>>), \* 18 [a]:?,![a]:3
     L(<<W(FALSE, <<"1", "0", ".", "0", ".", "0", ".", "?">>)>>),          \* 19 10.0.0.?  (wildcard on the address)
-    L(<<W(FALSE, a), W(TRUE, <<"*", ".", "5">>)>>)                        \* 20 a,!*.5    (negated wildcard on the address)
+    L(<<W(FALSE, a), W(TRUE, <<"*", ".", "5">>)>>),                       \* 20 a,!*.5    (negated wildcard on the address)
+    L(<<B6(FALSE, 4)>>),                                                  \* 21 fd00::4
+    L(<<C6(FALSE, 4, 1)>>),                                               \* 22 fd00::4/126
+    L(<<W(FALSE, Bracket(V6Str(4), 2))>>),                                \* 23 [fd00::4]:2
+    L(<<W(FALSE, <<"f", "d", "0", "0", ":", ":", "*">>)>>),               \* 24 fd00::*
+    L(<<W(FALSE, <<"*">>), C6(TRUE, 4, 1)>>),                             \* 25 *,!fd00::4/126
+    L(<<W(FALSE, <<"*">>), C(TRUE, 4, 1)>>),                              \* 26 *,!10.0.0.4/30
+    H(V6Str(4), 2),                                                       \* 27 |1|s2|HMAC(fd00::4)
+    L(<<C(FALSE, 0, 0), C6(FALSE, 0, 0)>>)                                \* 28 10.0.0.0/29,fd00::0/125
 >>
 Markers == <<"", "cert-authority", "revoked">>
 Keys    == <<"k1", "k2", "D">>          \* D = a line whose key field is damaged
 
-QMenu == <<        \* <<host, addr (-1 none), port (0 none)>>
-    <<a, -1, 0>>, <<b, -1, 0>>, <<a, 4, 0>>, <<b, 4, 0>>, <<a, 5, 0>>, <<b, 5, 0>>,
-    <<a, -1, 2>>, <<b, -1, 2>>, <<a, 4, 2>>, <<b, 4, 2>>, <<a, 5, 2>>, <<a, 4, 3>>
+(* the lookup triple.  host: a name, an IPv4 / IPv6 literal, or a literal in brackets; *)
+(* addr: none (tunnel, proxy command, non-IP socket), equal to the host, another one,  *)
+(* of the other family; port: default (0) or not                                       *)
+N(t)   == [k |-> "n",  t |-> t,    x |-> -1]
+Lit(x) == [k |-> "ip", t |-> <<>>, x |-> x]
+Br(x)  == [k |-> "br", t |-> <<>>, x |-> x]
+HostChars(h) == IF h.k = "n" THEN h.t
+                ELSE IF h.k = "ip" THEN AddrStrG(h.x)
+                ELSE <<"[">> \o AddrStrG(h.x) \o <<"]">>
+QMenu == <<
+    <<N(a), -1, 0>>, <<N(b), -1, 0>>, <<N(a), 4, 0>>, <<N(b), 4, 0>>, <<N(a), 5, 0>>, <<N(b), 5, 0>>,
+    <<N(a), -1, 2>>, <<N(b), -1, 2>>, <<N(a), 4, 2>>, <<N(b), 4, 2>>, <<N(a), 5, 2>>, <<N(a), 4, 3>>,
+    <<Lit(4), -1, 0>>, <<Lit(4), 4, 0>>, <<Lit(4), 5, 0>>, <<Lit(4), -1, 2>>, <<Lit(4), 4, 2>>,      \* 13..17
+    <<Lit(5), -1, 0>>, <<Lit(1), -1, 0>>,                                                            \* 18, 19
+    <<Lit(14), -1, 0>>, <<Lit(14), 14, 0>>, <<Lit(14), 15, 0>>, <<Lit(14), -1, 2>>, <<Lit(14), 14, 2>>, \* 20..24
+    <<Lit(4), 14, 0>>, <<Lit(14), 4, 0>>, <<Lit(11), -1, 0>>,                                        \* 25..27
+    <<N(a), 14, 0>>, <<N(a), 14, 2>>, <<N(b), 15, 0>>,                                               \* 28..30
+    <<Br(4), -1, 0>>, <<Br(14), -1, 0>>, <<Br(4), 4, 2>>                                             \* 31..33
 >>
+(* the address CIDR patterns are applied to: the peer address, or else the host itself *)
+(* when it is an IP literal                                                             *)
+IpOf(q) == IF q[2] >= 0 THEN q[2]
+           ELSE IF q[1].k = "ip" /\ ~NoHostLiteralCidr THEN q[1].x
+           ELSE -1
 
 HasPatChar(it) ==
     \/ it.neg
@@ -173,9 +212,9 @@ IsPattern(hf) == hf.kind = "h" \/ \E i \in 1..Len(hf.items) : HasPatChar(hf.item
 HFChars(hf) == IF hf.kind = "h" THEN <<"|">> ELSE ListChars(hf.items)
 
 (* strings the file is searched with *)
-HostS(q, wp) == IF wp THEN Bracket(q[1], q[3]) ELSE q[1]
+HostS(q, wp) == IF wp THEN Bracket(HostChars(q[1]), q[3]) ELSE HostChars(q[1])
 AddrS(q, wp) == IF q[2] < 0 THEN <<>>
-                ELSE IF wp THEN Bracket(AddrStr(q[2]), q[3]) ELSE AddrStr(q[2])
+                ELSE IF wp THEN Bracket(AddrStrG(q[2]), q[3]) ELSE AddrStrG(q[2])
 
 ExactHit(hf, s) ==
     /\ s # <<>> /\ ~IsPattern(hf)
@@ -184,7 +223,7 @@ PatHit(hf, q, wp) ==
     /\ IsPattern(hf)
     /\ IF hf.kind = "h"
        THEN hf.name = HostS(q, wp) \/ hf.name = AddrS(q, wp)
-       ELSE ListMatch(hf.items, HostS(q, wp), AddrS(q, wp), q[2])
+       ELSE ListMatch(hf.items, HostS(q, wp), AddrS(q, wp), IpOf(q))
 LineHit(hf, q, wp) ==
     ExactHit(hf, HostS(q, wp)) \/ ExactHit(hf, AddrS(q, wp)) \/ PatHit(hf, q, wp)
 
@@ -380,7 +419,7 @@ PatCases  == [pl : UNION {[1..n -> PatItems] : n \in 1..MaxItems},
 PatList(x) == [i \in 1..Len(x.pl) |-> W(x.pl[i].neg, x.pl[i].t)]
 
 LineIdx  == HFSel \X MarkSel \X KeySel
-KHCases  == [file : UNION {[1..n -> LineIdx] : n \in 1..MaxLines}, q : 1..Len(QMenu)]
+KHCases  == [file : UNION {[1..n -> LineIdx] : n \in 1..MaxLines}, q : QSel]
 RECURSIVE FileHash(_)
 FileHash(f) == IF f = <<>> THEN 7
                ELSE (FileHash(Tail(f)) * 31 + Head(f)[1] * 9 + Head(f)[2] * 3 + Head(f)[3]) % 100003
@@ -421,7 +460,7 @@ NegationExcludes ==       \* a negated match always excludes the line / entry
     /\ Mode = "kh" =>
          \A i \in 1..Len(c.file) : \A wp \in BOOLEAN :
             LET hf == HFOf(c.file[i]) q == QMenu[c.q] IN
-            (hf.kind = "l" /\ NegMatch(hf.items, HostS(q, wp), AddrS(q, wp), q[2]))
+            (hf.kind = "l" /\ NegMatch(hf.items, HostS(q, wp), AddrS(q, wp), IpOf(q)))
                => ~LineHit(hf, q, wp)
     /\ Mode = "ak" =>
          \A i \in 1..Len(c.file) :
@@ -451,6 +490,14 @@ RevocationKept ==         \* a key revoked for [host]:port or for the plain name
         IN  /\ q[3] # 0 => Set(Lookup(c.file, q, TRUE).rev) \subseteq Set(r.rev)
             /\ (q[3] = 0 \/ (Lookup(c.file, q, TRUE).host = <<>> /\ Lookup(c.file, q, TRUE).ca = <<>>))
                   => Set(Lookup(c.file, q, FALSE).rev) \subseteq Set(r.rev)
+
+LiteralHostIsAddress ==   \* an IP-literal host without a peer address is looked up like that address
+    Mode = "kh" =>
+        LET q == QMenu[c.q]
+            S(r) == <<{r.host[i] : i \in 1..Len(r.host)}, {r.ca[i] : i \in 1..Len(r.ca)},
+                      {r.rev[i] : i \in 1..Len(r.rev)}>>
+        IN  (q[1].k = "ip" /\ q[2] < 0) =>
+                S(KHResult(c.file, q)) = S(KHResult(c.file, <<q[1], q[1].x, q[3]>>))
 
 MarkerPartition ==        \* every selected line lands in exactly the list its marker names
     Mode = "kh" =>
@@ -536,7 +583,8 @@ MenuDump ==
       [i \in 1..Len(HFMenu) |-> IF HFMenu[i].kind = "h"
                                    THEN <<"h", HFMenu[i].name, HFMenu[i].salt>>
                                    ELSE <<"l", HFChars(HFMenu[i]), B2N(IsPattern(HFMenu[i]))>>],
-      Markers, Keys, QMenu,
+      Markers, Keys,
+      [i \in 1..Len(QMenu) |-> <<HostChars(QMenu[i][1]), AddrS(QMenu[i], FALSE), QMenu[i][3], QMenu[i][1].k>>],
       [i \in 1..Len(OptMenu) |-> OptChars(OptMenu[i])],
       AKKeys, PrincMenu>>
 ASSUME Emit => PrintT(MenuDump)
